@@ -400,7 +400,8 @@ class Node(object):
         server.cust = False
         server.busy = False
         individual.server = False
-        server.busy_time = self.increment_time(server.busy_time, individual.exit_date - individual.service_start_date)
+        server.busy_time = self.increment_time(server.busy_time - server.wrapped_up_busy_time, individual.exit_date - individual.service_start_date)
+        server.wrapped_up_busy_time = 0
         server.total_time = self.now - server.start_date
         if server.offduty:
             self.kill_server(server)
@@ -451,10 +452,9 @@ class Node(object):
         if isinf(self.c) or self.c == 0:
             self.server_utilisation = None
         else:
-            for server in self.servers:
-                self.all_servers_total.append(server.total_time)
-                self.all_servers_busy.append(server.busy_time)
-            self.server_utilisation = sum(self.all_servers_busy) / sum(self.all_servers_total)
+            total_time = sum(self.all_servers_total) + sum(server.total_time for server in self.servers)
+            busy_time = sum(self.all_servers_busy) + sum(server.busy_time for server in self.servers)
+            self.server_utilisation = busy_time / total_time
 
     def finish_service(self):
         """
@@ -844,7 +844,9 @@ class Node(object):
             for srvr in self.servers:
                 srvr.total_time = self.increment_time(current_time, -srvr.start_date)
                 if srvr.busy:
-                    srvr.busy_time += self.increment_time(current_time, -srvr.cust.service_start_date)
+                    srvr.busy_time -= srvr.wrapped_up_busy_time
+                    srvr.wrapped_up_busy_time = self.increment_time(current_time, -srvr.cust.service_start_date)
+                    srvr.busy_time += srvr.wrapped_up_busy_time
 
     def write_individual_record(self, individual):
         """
